@@ -45,7 +45,9 @@ def parseAnn : String → Option Ann
 def parseCls : String → Option Cls
   | "-" => some .absent
   | "o" => some .ours
+  | "o1" => some .ours        -- a class of ours that is being deleted (deletionTimestamp + finalizer): it still exists
   | "f" => some .foreign
+  | "f3" => some .foreign     -- a foreign class that is being deleted
   | "d" => some .dangling
   | "d1" => some .dangling
   | _ => none
@@ -62,6 +64,8 @@ def variant : String → Nat
   | "f1" => 1
   | "d1" => 1
   | "f2" => 2
+  | "o1" => 3
+  | "f3" => 3
   | _ => 0
 
 def parseObj (s : String) : Option Obj :=
